@@ -231,6 +231,9 @@ var programs = []string{
 	`{"a":{"q":1,"r":[1,2]}} | del(.a.q)`, `[1,[2,3]] | .[1] |= map(.+1)`, `{"a":[3,1,2]} | .a |= sort`, `[[3,1],[2]] | map(sort)`, `{"k":{"v":[1]}} | .k.v[0] = 9`, `[{"a":1}] | map(.a += 1)`,
 	`{"x":[1,2,3]} | del(.x[0])`, `{"x":{"y":1}} | to_entries`, `{"x":{"y":[1]}} | delpaths([["x","y",0]])`, `({"a":[1]} | .a) as $v | $v | .[0] = 2`, `"aab" | test("a")`,
 	`reduce range(3) as $i ({"a":[]}; .a += [$i])`, `[limit(3; repeat({"a":1}))] | map(.a |= .+1)`, `{"a":{"b":{"c":1}}} | [paths]`, `[{"a":[2,1]}] | .[0].a |= sort | .[0].a[0]`, `{"a":[1,2]} | .a += [3] | .a | length`,
+	// deletions through a slice that covers the whole array, and optional bracket forms (which the compiler rewrites)
+	`[(.b.d | add), (.b.d | del(.[0:]) | length)]`, `.b.d | del(.[-3:]) | length`, `.l |= del(.[0:])`, `delpaths([["b","d",{"start":null,"end":9}]])`, `.b.d[0:] |= empty`, `.a.r | del(.[:2]) | length`,
+	`.l[.b.d[0]]?`, `.b.d[1:]?`, `.l[0]?`, `.b.d[(0,1):(2,3)]?`, `."a\(1)"?`, `[.l[]?.a?]`, `.b.d[.a.q]?`,
 	`[[1,2],[3]] | add | sort`, `{"m":{"n":[1,{"o":2}]}} | .m.n[1].o |= . + 1`, `{"a":1,"b":{"c":2}} | with_entries(.value |= tojson)`, `[3,1,2] | sort | .[0]`, `{"a":[{"b":1},{"b":2}]} | del(.a[] | select(.b == 1))`,
 }
 
